@@ -440,6 +440,10 @@ def run_stores(spec, res):
         ('key', lambda d, n: [d[f'k{i}'] for i in range(n)]),
         ('items', lambda d, n: list(d.items())), ('slice', lambda d, n: list(d[::-1])),
         ('copy', lambda d, n: list(d.copy())), ('prefetch', lambda d, n: list(d.prefetch(2, 2, 't'))),
+        # an iteration suspended after its first example while the store is
+        # read from the end, by index and completely through a slice
+        ('nested', lambda d, n: [(x, d[-1], d[n // 2], list(d[::-1])) if j == 0 else x
+                                 for j, x in enumerate(d)]),
     ]
     for n in (1, 4, 9):
         for vn, val in values.items():
